@@ -18,7 +18,7 @@ BAD=$(grep -E "FAILED|TIMED OUT" $OUT/$ID-$TAG.suite.log | sed 's/\x1b\[[0-9;]*m
 STILL=""
 for t in $BAD; do
   okrun=0
-  for i in 1 2; do if ./xcmtest -c -v $t > $OUT/$ID-$TAG.rerun.log 2>&1 && ! grep -q -E "FAILED|TIMED OUT" $OUT/$ID-$TAG.rerun.log; then okrun=1; break; fi; done
+  for i in 1 2 3 4 5; do sleep $((i*7)); if ./xcmtest -c -v $t > $OUT/$ID-$TAG.rerun.log 2>&1 && ! grep -q -E "FAILED|TIMED OUT" $OUT/$ID-$TAG.rerun.log; then okrun=1; break; fi; done
   [ $okrun -eq 1 ] || STILL="$STILL $t"
 done
 [ -n "$BAD" ] && echo "re-run alone: [$BAD] -> still failing: [$STILL]" >> $R
